@@ -9,6 +9,7 @@ package rtpconn
 //     every packet it emits (VP8 with temporal layers, VP9 SVC, opaque).
 
 import (
+	"runtime"
 	"encoding/binary"
 	"fmt"
 	"reflect"
@@ -38,9 +39,14 @@ type capWriter struct {
 	mu   sync.Mutex
 	pkts []capPkt
 	n    int
+	// yield: let other goroutines run before the payload is read, as a transport that encrypts and sends it would
+	yield int
 }
 
 func (w *capWriter) WriteRTP(h *rtp.Header, payload []byte) (int, error) {
+	for i := 0; i < w.yield; i++ {
+		runtime.Gosched()
+	}
 	w.mu.Lock()
 	defer w.mu.Unlock()
 	w.pkts = append(w.pkts, capPkt{Hdr: h.Clone(), Payload: append([]byte(nil), payload...)})
